@@ -19,13 +19,13 @@ M64 = (1 << 64) - 1
 def pre(ctx):
     import xlate_arith
     try:
-        t = xlate_arith.translate('/repo/ff/src/biginteger/arithmetic.rs')
+        t = xlate_arith.translate(ctx.get('REPO', '/repo') + '/ff/src/biginteger/arithmetic.rs')
     except xlate_arith.TranslateError as e:
         # DESIGN §4.2 E: not a violation by itself; the previous GenArith.v stays, and the
         # correspondence below still compares the real leaf functions through every chain
         ctx['notes'].append('T-leaf translator could not parse arithmetic.rs: %s (kept previous GenArith.v)' % e)
         return
-    if xlate_arith.write_if_changed('/verif/coq/C15/GenArith.v', t):
+    if xlate_arith.write_if_changed(ctx.get('COQ', '/verif/coq') + '/C15/GenArith.v', t):
         ctx['notes'].append('GenArith.v regenerated: leaf arithmetic source changed')
 
 
